@@ -652,10 +652,10 @@ def plan(tier):
         return [(('init', 2), 5), (('named15', 2), 4), (('named16', 1), 3),
                 (('dyn31', 2), 4), (('dyn32', 1), 3),
                 (('closedname', 2), 4), (('reused', 1), 4)]
-    return [(('init', 2), 5), (('init', 3), 4),
-            (('named15', 2), 4), (('named16', 2), 4),
-            (('dyn31', 2), 4), (('dyn32', 2), 4),
-            (('closedname', 2), 4), (('reused', 2), 4)]
+    return [(('init', 2), 6), (('init', 3), 5),
+            (('named15', 2), 5), (('named16', 2), 4),
+            (('dyn31', 2), 5), (('dyn32', 2), 4),
+            (('closedname', 2), 5), (('reused', 2), 5)]
 
 
 def main(tier='quick', seed=0, part=None):
